@@ -127,7 +127,7 @@ def model(rows, repls, opw):
     return lines
 
 
-def render(rnd, rows, env, ams=True):
+def render(rnd, rows, env, ams=True, dangling=False):
     """-> (source of the equation, offsets of text words relative to its start)"""
     out = []
     n = [0]
@@ -165,6 +165,9 @@ def render(rnd, rows, env, ams=True):
                     emit(m + '{' + it[1])
                     words[it[2]] = n[0]
                     emit(it[2] + it[3] + '}')
+    if dangling:
+        # simple-equations mode only: a dangling row separator / alignment character after the last row
+        emit(rnd.choice([' \\\\', '\\\\[1ex]', ' &', ' & \\quad', ' \\\\ ']))
     if env == '\\[':
         emit(rnd.choice(['\n', ' ', '']) + '\\]')
     elif env == '$$':
@@ -221,7 +224,10 @@ class C11(core.Check):
             e.wb = 'wb%dz' % k
             src += e.wa + '\n'
             e.start = len(src)
-            body, words = render(rnd, rows, env, ams=case['pack'] == '*')
+            dangling = case['seqs'] and rnd.random() < .3
+            if dangling:
+                cnt_dangling = True
+            body, words = render(rnd, rows, env, ams=case['pack'] == '*', dangling=dangling)
             e.words = {w: e.start + off for w, off in words.items()}
             src += body
             e.end = len(src)
